@@ -16,7 +16,7 @@ A function the translator could not read is `…_available = false` and its theo
 correspondence runs only); a function it read whose control flow differs from the model's makes the theorem fail.
 -/
 import NdInterp.Gen.Control
-import NdInterp.Model.Spline
+import NdInterp.Model.Interp
 
 namespace NdInterp
 
@@ -467,6 +467,107 @@ theorem FT_ctl_spline (s : SplineStrat V) (xs : List α) (ys : List V) (x : α) 
                 cases lowerIndex xs (RemEuclid.remEuclid (x - x0) (xn - x0) + x0) with
                 | error e => rfl
                 | ok idx => spl_reads))
+
+end
+
+/-! ### the validation prefix of `Interp1DBuilder::build` / `Interp2DBuilder::build` and the default axes of `…Builder::new` -/
+
+section
+variable {α : Type} [Cmp α] [Add α] [Sub α] [Mul α] [Div α] [Neg α] [NatCast α] [ToUsize α] [RemEuclid α]
+
+theorem getD_zero_eq_headD (s : List Nat) : (s[0]?).getD 0 = s.headD 0 := by
+  cases s <;> rfl
+
+theorem getD_one_eq_headD (s : List Nat) : (s[1]?).getD 0 = (s.drop 1).headD 0 := by
+  rcases s with _ | ⟨a, _ | ⟨b, r⟩⟩ <;> rfl
+
+omit [Cmp α] [Add α] [Sub α] [Mul α] [Div α] [Neg α] [ToUsize α] [RemEuclid α] in
+/-- the axes `Interp1DBuilder::new` / `Interp2DBuilder::new` install are the model's default axes -/
+theorem FT_ctl_default_axes (shape : List Nat) :
+    (builder1_default_x_available && builder2_default_x_available && builder2_default_y_available) = true →
+    builder1_default_x (α := α) shape = defaultAxis (shape.headD 0) ∧
+    builder2_default_x (α := α) shape = defaultAxis (shape.headD 0) ∧
+    builder2_default_y (α := α) shape = defaultAxis ((shape.drop 1).headD 0) := by
+  intro h
+  first
+  | exact absurd h (by decide)
+  | (unfold builder1_default_x builder2_default_x builder2_default_y defaultAxis
+     simp only [getD_zero_eq_headD, getD_one_eq_headD, and_self])
+
+/-- **`Interp1DBuilder::build`**, every statement up to the call of the strategy's own `build`, is the model's `validate1` -/
+theorem FT_ctl_builder1 (minLen : Nat) (x : Option (List α)) (data : NdArr α) :
+    (builder1_validate_available && builder1_default_x_available && builder2_default_x_available && builder2_default_y_available &&
+      mono_prop_available && mono_start_available && mono_update_available && mono_short_circuit_available && mono_finish_available) = true →
+    validate1 minLen x data = builder1_validate minLen (x.getD (builder1_default_x data.shape)) data.shape := by
+  intro h
+  first
+  | exact absurd h (by decide)
+  | (simp only [Bool.and_eq_true] at h
+     obtain ⟨⟨⟨⟨⟨⟨⟨⟨_, hd1⟩, hd2⟩, hd3⟩, hm⟩, h0⟩, hu⟩, hs⟩, hf⟩ := h
+     have hM : ∀ l : List α, mono_prop l = monotonicProp l := fun l =>
+       FT_ctl_mono_prop l (by simp only [Bool.and_eq_true]; exact ⟨⟨⟨⟨hm, h0⟩, hu⟩, hs⟩, hf⟩)
+     have hD := (FT_ctl_default_axes (α := α) data.shape (by simp only [Bool.and_eq_true]; exact ⟨⟨hd1, hd2⟩, hd3⟩)).1
+     unfold validate1 builder1_validate
+     simp only [hM, hD, bind, Except.bind, pure, Except.pure, throw, throwThe, MonadExceptOf.throw]
+     rcases hsh : data.shape with _ | ⟨d, rest⟩
+     · simp
+     · simp only [List.length_cons, List.headD_cons, List.getElem?_cons_zero]
+       have : ¬ (rest.length + 1 < 1) := by omega
+       simp only [this, Nat.add_one_ne_zero, ↓reduceIte]
+       by_cases hlt : d < minLen
+       · simp [hlt]
+       · simp only [hlt, ↓reduceIte]
+         cases monotonicProp (x.getD (defaultAxis d)) with
+         | error e => rfl
+         | ok m =>
+           rcases m with (_ | _) | _ | _ <;> simp only [] <;> (try rfl)
+           all_goals
+             (by_cases hl : (x.getD (defaultAxis d)).length = d
+              · simp [hl]
+              · have hl' : ¬ (d = (x.getD (defaultAxis d)).length) := fun h => hl h.symm
+                simp [hl, hl']))
+
+/-- **`Interp2DBuilder::build`**, every statement up to the call of the strategy's own `build`, is the model's `validate2` -/
+theorem FT_ctl_builder2 (minLen : Nat) (x y : Option (List α)) (data : NdArr α) :
+    (builder2_validate_available && builder1_default_x_available && builder2_default_x_available && builder2_default_y_available &&
+      mono_prop_available && mono_start_available && mono_update_available && mono_short_circuit_available && mono_finish_available) = true →
+    validate2 minLen x y data =
+      builder2_validate minLen (x.getD (builder2_default_x data.shape)) (y.getD (builder2_default_y data.shape)) data.shape := by
+  intro h
+  first
+  | exact absurd h (by decide)
+  | (simp only [Bool.and_eq_true] at h
+     obtain ⟨⟨⟨⟨⟨⟨⟨⟨_, hd1⟩, hd2⟩, hd3⟩, hm⟩, h0⟩, hu⟩, hs⟩, hf⟩ := h
+     have hM : ∀ l : List α, mono_prop l = monotonicProp l := fun l =>
+       FT_ctl_mono_prop l (by simp only [Bool.and_eq_true]; exact ⟨⟨⟨⟨hm, h0⟩, hu⟩, hs⟩, hf⟩)
+     have hD := FT_ctl_default_axes (α := α) data.shape (by simp only [Bool.and_eq_true]; exact ⟨⟨hd1, hd2⟩, hd3⟩)
+     unfold validate2 builder2_validate
+     simp only [hM, hD.2.1, hD.2.2, bind, Except.bind, pure, Except.pure, throw, throwThe, MonadExceptOf.throw]
+     rcases hsh : data.shape with _ | ⟨d, _ | ⟨d2, rest⟩⟩
+     · simp
+     · simp
+     · simp only [List.length_cons, List.headD_cons, List.getElem?_cons_zero, List.getElem?_cons_succ, List.drop_succ_cons, List.drop_zero]
+       have : ¬ (rest.length + 1 + 1 < 2) := by omega
+       simp only [this, ↓reduceIte]
+       by_cases h1 : d < minLen
+       · simp [h1]
+       · simp only [h1, ↓reduceIte]
+         by_cases h2 : d2 < minLen
+         · simp [h2]
+         · simp only [h2, ↓reduceIte]
+           by_cases h3 : (x.getD (defaultAxis d)).length = d
+           · simp only [h3, ne_eq, not_true_eq_false, ↓reduceIte]
+             by_cases h4 : (y.getD (defaultAxis d2)).length = d2
+             · simp only [h4, ne_eq, not_true_eq_false, ↓reduceIte]
+               cases monotonicProp (x.getD (defaultAxis d)) with
+               | error e => rfl
+               | ok m =>
+                 rcases m with (_ | _) | _ | _ <;> simp only [] <;> (try rfl)
+                 cases monotonicProp (y.getD (defaultAxis d2)) with
+                 | error e => rfl
+                 | ok m2 => rcases m2 with (_ | _) | _ | _ <;> rfl
+             · simp [h4]
+           · simp [h3])
 
 end
 
